@@ -3,11 +3,12 @@ from ..core.model import AnalysisError, Program
 from ..core.report import CheckContext
 from ..core.resolve import Resolver
 from ..rules import own
-from .common import run_control
+from .common import run_control, generic_rules
 
 
 def analyse(ctx: CheckContext, p: Program):
     r = Resolver(p)
+    generic_rules(ctx, p, r, "C18")
     s = p.find_class("SimpleHeatPumpCycle")
     b = p.find_class("SimpleBraytonHeatPumpCycle")
     if s is None:
@@ -27,6 +28,8 @@ def run(ctx: CheckContext):
         "and stream duties come from CoolProp numerics and are NOT decided",
     ]
     f = "OpenPinch/classes/simple_heat_pump.py"
+    run_control(ctx, "C18/solve-skipped-on-partial-key", analyse, p.root, "OpenPinch/classes/simple_heat_pump.py",
+                "        self._refrigerant = refrigerant\n        self._T_evap = Te", "        if self._solved and (Te, Tc, refrigerant) == (self._T_evap, self._T_cond, self._refrigerant):\n            return self._work\n        self._refrigerant = refrigerant\n        self._T_evap = Te", "MEMO-KEY")
     run_control(ctx, "C18/m_dot-written-in-query", analyse, p.root, f,
                 "            m_dot = self._Q_cond / abs(self._cycle_states[1, 'H'] - self._cycle_states[2, 'H'])\n",
                 "            m_dot = self._Q_cond / abs(self._cycle_states[1, 'H'] - self._cycle_states[2, 'H'])\n            self._m_dot = m_dot\n", "QEFFECT")
